@@ -41,6 +41,28 @@ type entry struct {
 	leaves []tleaf
 }
 
+// defectKey names the disagreement an entry belongs to: entries that can only fail together (the two
+// services sharing one respond section, an option of a type the schema does not know) share a key,
+// every other entry is its own class.
+func (e entry) defectKey() string {
+	l := e.label
+	for _, g := range []struct{ contains, key string }{
+		{"error_handlers.www_authenticate", "error_handlers.www_authenticate"},
+		{"error_handlers.www-authenticate", "error_handlers.www-authenticate"},
+		{"endpoint.auth.http_message_signatures", "endpoint.auth.http_message_signatures"},
+		{".respond.with.argument_error", "serve.respond.with.argument_error"},
+		{".respond.with.precondition_error", "serve.respond.with.precondition_error"},
+		{"option:log.level=warn", "log.level=warn|disabled"},
+		{"option:log.level=disabled", "log.level=warn|disabled"},
+		{".metadata_endpoint-as-string", "metadata_endpoint-as-string"},
+	} {
+		if strings.Contains(l, g.contains) {
+			return g.key
+		}
+	}
+	return l
+}
+
 func parsePath(p string) []seg {
 	var out []seg
 	for _, s := range strings.Split(p, ".") {
@@ -167,6 +189,13 @@ func (h *harness) runEntry(e entry) {
 		forms = append(forms, f)
 	}
 
+	{
+		f := form{name: "one variable per top-level section holding the section as JSON"}
+		f.env = sectionVars(build(toPlaced(e.leaves, func(l tleaf) (any, bool) { return l.v, true })))
+		f.without = sectionVars(build(toPlaced(e.leaves, func(l tleaf) (any, bool) { return l.v, !l.opt })))
+		forms = append(forms, f)
+	}
+
 	decided := false
 	for _, f := range forms {
 		skel := toYAML(build(f.skeleton))
@@ -186,7 +215,7 @@ func (h *harness) runEntry(e entry) {
 		wo := w.load(skel, envIn(orders(len(f.without), 1, nil)[0], f.without))
 		r.Count("table_loads", 4)
 		effective := eo.loaded() && wo.loaded() && eo.Canon != wo.Canon
-		if !t.none() {
+		if !t.none() && !h.listDefectsAbsent {
 			// not decisive; if the file form works the difference is attributed by the list defect classifier
 			r.Count("table_environment_forms_hitting_list_defect_trigger", 1)
 			if fo.usable() {
@@ -206,15 +235,15 @@ func (h *harness) runEntry(e entry) {
 		supports := eo.usable() && effective
 		switch {
 		case !rep.SchemaOK && supports:
-			r.Violation("schema-rejects-supported:"+e.label, "the file schema rejects what the loader supports (usable and effective from the environment): "+short(rep.SchemaErr, 160), rep)
+			r.Violation("schema-rejects-supported:"+e.defectKey(), "the file schema rejects what the loader supports (usable and effective from the environment): "+short(rep.SchemaErr, 160), rep)
 		case rep.SchemaOK && !supports:
 			why := "not usable from the environment: " + short(rep.EnvErr, 160)
 			if eo.usable() {
 				why = "accepted but silently without effect on the configuration"
 			}
-			r.Violation("schema-accepts-unsupported:"+e.label, "the file schema accepts what the loader does not support: "+why, rep)
+			r.Violation("schema-accepts-unsupported:"+e.defectKey(), "the file schema accepts what the loader does not support: "+why, rep)
 		case e.doc && fo.usable() != eo.usable():
-			r.Violation("file-env-usability-differs:"+e.label, fmt.Sprintf("usable from file: %v (%s), usable from environment: %v (%s)", fo.usable(), short(rep.FileErr, 100), eo.usable(), short(rep.EnvErr, 100)), rep)
+			r.Violation("file-env-usability-differs:"+e.defectKey(), fmt.Sprintf("usable from file: %v (%s), usable from environment: %v (%s)", fo.usable(), short(rep.FileErr, 100), eo.usable(), short(rep.EnvErr, 100)), rep)
 		case e.doc && fo.usable() && eo.usable():
 			crep := caseReport{Case: "table:" + e.label, Plan: "table, " + f.name, File: skel, Env: vars, Intended: fileYAML}
 			if h.judge(crep, sigSplit, fo, eo, t, f.env, func() map[string]string { return wo.Leaves }) {
